@@ -29,6 +29,7 @@ TYPES = {
     'unionList': ('t:unionList', 'union', [], ['1 2000-01-01 3', '12', '', '2000-01-01', '5 6']),
     'smallIntList': ('t:smallIntList', 'intlist', [], ['1 2', '', '10']),
     'boolOrIntList': ('t:boolOrIntList', 'union', [], ['true 0 1', '1 true', '0', 'false 7 true 8', '']),
+    'intBoolStringList': ('t:intBoolStringList', 'union', [], ['true 0 1', 'abc 7', '1 true 0', 'false 12 x 3', '']),
 }
 # member types of the unions, in declaration order, and a lexical test per member: which member a value belongs to
 UNION_MEMBERS = {
@@ -72,6 +73,7 @@ NAMED_TYPES = '''
  <xs:simpleType name="unionList"><xs:list itemType="t:intOrDate"/></xs:simpleType>
  <xs:simpleType name="smallIntList"><xs:list itemType="t:smallInt"/></xs:simpleType>
  <xs:simpleType name="boolOrIntList"><xs:list itemType="t:boolOrInt"/></xs:simpleType>
+ <xs:simpleType name="intBoolStringList"><xs:list itemType="t:intBoolString"/></xs:simpleType>
 '''
 
 # a second schema for the same vocabulary must accept the same instances: map every type to a supertype
@@ -81,7 +83,7 @@ SUPERTYPE = {
     'dateTime': 'string', 'time': 'string', 'anyURI': 'string', 'smallInt': 'integer', 'intList': 'string',
     'intOrDate': 'string', 'intBoolString': 'string', 'integerOrDecimal': 'string', 'shortOrDouble': 'string',
     'boolOrInt': 'string', 'decimalOrName': 'string', 'decimalOrDate': 'string', 'unionList': 'string',
-    'smallIntList': 'string', 'boolOrIntList': 'string',
+    'smallIntList': 'string', 'boolOrIntList': 'string', 'intBoolStringList': 'string',
 }
 
 
@@ -98,6 +100,9 @@ def gen_schema_spec(rng, max_elems=8):
             ent['attr'] = {'name': 'u', 'type': rng.choice(['boolean', 'integer', 'string', 'date'])}
         if rng.random() < 0.15:
             ent['nillable'] = True
+            if rng.random() < 0.5 and '' not in TYPES[k][3] and 'attr' not in ent:
+                # a default value: it applies to an empty element, never to a nilled one
+                ent['default'] = rng.choice([v for v in TYPES[k][3]]).strip()
         elems.append(ent)
     attrs = []
     for an in ['id', 'n']:
@@ -145,7 +150,8 @@ def render_schema(spec, variant='A'):
                          '<xs:attribute name="%s" type="%s"/></xs:extension></xs:simpleContent></xs:complexType>'
                          '</xs:element>' % (e['name'], occ, nil, tname(e['type']), e['attr']['name'], tname(e['attr']['type'])))
         else:
-            parts.append('<xs:element name="%s" type="%s"%s%s/>' % (e['name'], tname(e['type']), occ, nil))
+            dflt = ' default="%s"' % e['default'] if e.get('default') and variant == 'A' else ''
+            parts.append('<xs:element name="%s" type="%s"%s%s%s/>' % (e['name'], tname(e['type']), occ, nil, dflt))
     for g in spec.get('groups', ()):
         parts.append('<xs:element name="%s" minOccurs="0"><xs:complexType><xs:sequence>'
                      '<xs:element name="%s" type="%s" maxOccurs="%d"/></xs:sequence></xs:complexType></xs:element>' % (
